@@ -5,6 +5,10 @@ HERE = os.path.dirname(os.path.dirname(os.path.abspath(__file__)))
 
 # id -> (technique, level text, level note, design section)
 CHECKS = {
+ "C11": ("exhaustive single-reference (thorough: pairwise) corruption of a fully consistent generated module over every covered position x every alternative target class; exhaustive structural-oddity grid for totality",
+         "One consistent module in which each of the 48 reference positions inspected by check() is populated (empty report required) x every alternative target of the position's namespace class: missing, another kind of the same namespace, NO_COMPU_METHOD / NO_INPUT_QUANTITY / NO_INVERSE_TRANSFORMER, THIS.<component> valid and invalid, a name of another namespace; thorough adds all pairs. The names in the CrossReferenceErrors must equal the names made missing. Totality: 8 characteristic types x 0..7 AXIS_DESCR x 5 axis kinds x 3 record layouts for CHARACTERISTIC and TYPEDEF_CHARACTERISTIC, duplicate names, cycles, empty lists, REF_MEMORY_SEGMENT without MOD_PAR, every corpus document and the cleanup modules: check() returns and the model is unchanged.",
+         "'covered' positions are those check() inspects at the pinned commit (DESIGN appendix A, column K)",
+         "DESIGN.md 5/C11"),
  "C10": ("exhaustive enumeration of small helper reference graphs (all 3-node GROUP / FUNCTION / UNIT graphs x content x users) and of every usage position x {used, unused, dangling}; invariant oracle on module snapshots before / after / after-twice",
          "All SUB_GROUP relations on 3 GROUPs x per-group content x ROOT x USER_RIGHTS subsets, all SUB_FUNCTION relations on 3 FUNCTIONs x content x FUNCTION_LIST users, all REF_UNIT functions on 3 UNITs x used subsets, and every usage position of COMPU_METHOD, conversion tables, UNIT, RECORD_LAYOUT, GROUP and FUNCTION as the only user x {used, unused, dangling} x target kind. After cleanup: only helper kinds removed, objects and typedefs equal modulo previously dangling references, no remaining element refers to a removed one, a check()-clean file stays clean, a second cleanup changes nothing (text), the cleaned file reloads equal.",
          "graphs with more than three helpers of one kind are not explored; completeness of removal is asserted only through idempotence",
